@@ -115,7 +115,8 @@ pub fn validate(q: &Query, edges: &[Edge], r: &RRoute) -> (Vec<Fail>, Info) {
 			let first_from_hints = i == 0 && q.first_hops.is_some();
 			let cand = edges.iter().position(|e| {
 				!e.virtual_hop
-					&& e.scid == h.scid && e.from == cur
+					&& (e.scid == h.scid || matches!(e.kind, EdgeKind::FirstHop(fi) if q.first_hops.as_ref().map_or(false, |f| f[fi].alias == Some(h.scid))))
+					&& e.from == cur
 					&& e.to == next && match e.kind {
 					EdgeKind::FirstHop(_) => first_from_hints,
 					_ => !first_from_hints,
